@@ -80,6 +80,8 @@ def task(version, minor, met, a, b, extra_fixed=None):
     vars_ = sess.assign_vars(version, fixed=fixed)
     del vars_[met]
     label = "v%s%s %s:%s->%s" % (version, "." + minor if minor else "", met, a, b)
+    if version == 3 and extra_fixed:
+        label += " [" + ",".join("%s=%s" % (k, "absent" if v == [ABSENT] else "/".join(map(str, v))) for k, v in sorted(extra_fixed.items()) if k != "minor") + "]"
     vec = pair_vector(sess, version, vars_, met, a, b)
     mod = sess.load("cvss")
     C.set_epoch(1)
@@ -133,41 +135,47 @@ def task(version, minor, met, a, b, extra_fixed=None):
     return chk.to_dict()
 
 
-def reduced_domain(version, met):
-    """quick tier: metrics fixed to keep a pair-mode run cheap (each reduction is stated as a
-    bound in the evidence; the thorough tier runs the full domain)"""
+def configurations(version, met, a, b):
+    """list of (extra_fixed, note) configurations a step is run in.
+    v2: environmental metrics absent (only base and temporal scores are in the property).
+    v3: the full domain (all other 21 metrics symbolic, absent included) - except for the five
+    steps whose two sides take different branches of the scoring code for many inputs (Scope,
+    Modified Scope, and C/I/A from None to Low: the zero-impact branch).  There the product run
+    over temporal x environmental metrics together does not finish in this engine (> 25 min,
+    measured), so those steps are run in restricted configurations and the rest is stated as
+    outside the claim."""
     g = G.GRAMMARS[version]
-    fx = {}
     if version == 2:
-        for x in g["environmental"]:
-            fx[x] = [ABSENT]  # v2: only base and temporal scores are in the property
-        return fx
+        return [({x: [ABSENT] for x in g["environmental"]}, None)]
+    heavy = met in ("S", "MS") or (met in ("C", "I", "A") and a == "N")
+    if not heavy:
+        return [({}, None)]
+    out = [({x: [ABSENT] for x in g["environmental"]}, "environmental metrics absent (base and temporal scores complete)"),
+           ({x: [ABSENT] for x in g["temporal"]}, "temporal metrics absent")]
     if C.tier() == "thorough":
-        return fx
-    if met in g["mandatory"]:
-        # base-metric step: base and temporal scores; the environmental score is exercised through
-        # the Modified-metric steps (an undefined Modified metric takes the base value: C06 a/d)
-        for x in g["environmental"]:
-            fx[x] = [ABSENT]
-    elif met in g["temporal"]:
-        pass
-    else:
-        # environmental step: temporal metrics only scale the result by a positive factor
-        for x in g["temporal"]:
-            fx[x] = [ABSENT]
-        if met.startswith("M"):
-            fx[met[1:]] = [G.legal(g, met[1:])[0]]  # overridden base metric: not read
-    return fx
+        for t in g["temporal"]:
+            for v in G.legal(g, t):
+                if v == "X":
+                    continue
+                fx = {x: [ABSENT] for x in g["temporal"]}
+                fx[t] = [v]
+                out.append((fx, "only %s:%s of the temporal metrics defined" % (t, v)))
+    return out
 
 
 def main():
     chk = Check("C14")
     tasks = []
     for met, a, b in steps(2):
-        tasks.append(("task", (2, None, met, a, b, reduced_domain(2, met))))
+        for fx, note in configurations(2, met, a, b):
+            tasks.append(("task", (2, None, met, a, b, fx)))
+    restricted = set()
     for minor in ("0", "1"):
         for met, a, b in steps(3):
-            tasks.append(("task", (3, minor, met, a, b, reduced_domain(3, met))))
+            for fx, note in configurations(3, met, a, b):
+                tasks.append(("task", (3, minor, met, a, b, fx)))
+                if note:
+                    restricted.add("%s:%s->%s" % (met, a, b))
     from . import mono4
 
     tasks4 = mono4.tasks()
@@ -179,13 +187,11 @@ def main():
             chk.absorb_dict(r)
     chk.input_model = ("M-ASSIGN in pair mode: per metric step (adjacent values in the standard's severity order) one run of the real constructor in which the stepped field is a pair leaf and all other metrics are solver variables; "
                        "v2: 20 steps (base, temporal); v3.0 / v3.1: 41 steps each (v3.0 environmental score exempt for impact and requirement metrics, as the property says); v4: see mono4")
-    if C.tier() == "thorough":
-        chk.bounds = ["v2: environmental metrics absent (only base and temporal scores are in the property); v3: none on the domain"] + mono4.bounds()
-    else:
-        chk.bounds = ["v2: environmental metrics absent (only base and temporal scores are in the property)",
-                      "v3 quick tier, to keep each product run cheap: base-metric steps with the environmental metrics absent (base and temporal scores; the environmental score is covered by the Modified-metric steps, an undefined Modified metric taking the base value); "
-                      "requirement / Modified-metric steps with the temporal metrics absent and the overridden base metric fixed; temporal-metric steps on the full domain. The thorough tier runs every step on the full domain."] + mono4.bounds()
-    chk.outside = mono4.outside()
+    chk.bounds = ["v2: environmental metrics absent (only base and temporal scores are in the property)",
+                  "v3: every step with all other 21 metrics symbolic (absent included), except the steps %s, which run in restricted configurations: "
+                  "(i) environmental metrics absent, temporal metrics symbolic (base and temporal scores: complete), (ii) temporal metrics absent, environmental metrics symbolic%s"
+                  % (", ".join(sorted(restricted)), "; (iii) exactly one temporal metric defined, environmental metrics symbolic" if C.tier() == "thorough" else "")] + mono4.bounds()
+    chk.outside = mono4.outside() + ["v3 environmental score for the steps %s when %s temporal metrics AND environmental metrics are defined together (product run does not finish in this engine)" % (", ".join(sorted(restricted)), "two or more" if C.tier() == "thorough" else "any")]
     chk.assumptions = ["severity orders typed in harness/mono.py from the standards", "no oracle scores are used: only the implementation's own scores on the two sides are compared"]
     C.finish(chk)
 
